@@ -131,3 +131,54 @@ def run(ctx):
             ctx.violation("exactly zero pivot product but the result is not ZeroDet", r, expected="zerodet", observed=a)
         if cls in ("indefinite", "nan_entry", "zero_middle_pivot") and tol is not None and st == "ok":
             ctx.violation(f"Ok returned for a {cls} matrix with the stability test on", r, observed=a)
+
+    if ctx.mismatches and not ctx.violations:
+        search_failing_input(ctx)
+
+
+def float_l21_residual(n, A, inv):
+    """||inv*A - 1||_{2,1} evaluated in binary64 in the order the property's definition suggests
+    (row-by-column products accumulated from zero, one square root per column)"""
+    import numpy as np
+    with np.errstate(all="ignore"):
+        res = np.float64(0.0)
+        for j in range(n):
+            col = np.float64(0.0)
+            for i in range(n):
+                acc = np.float64(0.0)
+                for k in range(n):
+                    acc = acc + np.float64(inv[i][k]) * np.float64(A[k][j])
+                z = acc - np.float64(1.0 if i == j else 0.0)
+                col = col + z * z
+            res = res + np.sqrt(col)
+        return float(res)
+
+
+def search_failing_input(ctx):
+    """Correspondence broke: look for a concrete matrix/tolerance on which the real code returns Ok although the
+    binary64-evaluated L_{2,1} distance exceeds the tolerance (tolerances placed inside the window between the
+    Frobenius-type under-estimates and the L_{2,1} value)."""
+    rng = ctx.rng
+    base = []
+    for n in range(2, 7):
+        for _ in range(6):
+            fam, f = rng.choice(gen.SPD_FAMILIES)
+            base.append((n, f(rng, n)))
+    r0 = [{"op": "decomp", "n": n, "a": gen.flat_bits(A)} for n, A in base]
+    a0 = run_harness(r0)
+    reqs, infos = [], []
+    for (n, A), a in zip(base, a0):
+        if a.get("status") != "ok" or not all(X.is_finite_bits(b) for b in a["inv"]):
+            continue
+        inv = [[b2f(a["inv"][i * n + j]) for j in range(n)] for i in range(n)]
+        d = float_l21_residual(n, A, inv)
+        if not (d > 0 and math.isfinite(d)):
+            continue
+        for frac in (0.97, 0.9, 0.75, 0.6):
+            reqs.append({"op": "decomp", "n": n, "a": gen.flat_bits(A), "tol": f2b(d * frac)})
+            infos.append((d, frac))
+    for r, a, (d, frac) in zip(reqs, run_harness(reqs), infos):
+        ctx.count("search.l21_window_probe")
+        if a.get("status") == "ok":
+            ctx.violation(f"Ok returned although the binary64-evaluated L21 distance {d:.3e} exceeds the tolerance {d*frac:.3e}", r,
+                          expected="unstable", observed=a)
